@@ -99,11 +99,9 @@ func (e editor) leaf(from *Selection, to *Selection, m meta.Leafable, new bool, 
 
 	if hnd.Val != nil {
 		// If there is a different choice selected, need to clear it
-		// first if in upsert mode
-		if strategy == editUpsert {
-			if err := e.clearOnDifferentChoiceCase(to, m); err != nil {
-				return err
-			}
+		// first. whatever the strategy, one case of a choice holds data
+		if err := e.clearOnDifferentChoiceCase(to, m); err != nil {
+			return err
 		}
 		r.Selection = to
 		r.From = from
@@ -216,6 +214,10 @@ func (e editor) node(from *Selection, to *Selection, m meta.HasDataDefinitions, 
 	case editInsert:
 		if toChild != nil {
 			return fmt.Errorf("%w. item '%s' found in '%s'.  ", fc.ConflictError, m.Ident(), fromRequest.Path)
+		}
+		// creating a node of a case deletes the nodes of the other cases
+		if err := e.clearOnDifferentChoiceCase(to, m); err != nil {
+			return err
 		}
 		if toChild, err = to.selekt(&toRequest); err != nil {
 			return err
